@@ -52,6 +52,32 @@ func chainFor(key string) []*pki.Cert {
 	return envFix.chains[key]
 }
 
+// c02ChainShapes: the certificate chain an envelope carries (or a signer returns) comes in more shapes than leaf + root; the binding
+// between the declared algorithm and the leaf key does not depend on what stands above the leaf.
+var c02ChainShapes = []string{"leaf+root", "one-self-signed-certificate", "leaf+intermediate+root"}
+
+var c02Shaped sync.Map
+
+func chainForShape(key string, shape int) []*pki.Cert {
+	if shape == 0 {
+		return chainFor(key)
+	}
+	envFix.init()
+	k := fmt.Sprintf("%s/%d", key, shape)
+	if v, ok := c02Shaped.Load(k); ok {
+		return v.([]*pki.Cert)
+	}
+	var out []*pki.Cert
+	if shape == 1 {
+		out = []*pki.Cert{pki.Issue(pki.LeafTmpl("env self-signed leaf "+key), pki.K(key), nil, nil)}
+	} else {
+		inter := pki.Issue(pki.CATmpl("env intermediate"), pki.K("p384-a"), envFix.root, nil)
+		out = []*pki.Cert{pki.Issue(pki.LeafTmpl("env leaf below an intermediate "+key), pki.K(key), inter, nil), inter, envFix.root}
+	}
+	v, _ := c02Shaped.LoadOrStore(k, out)
+	return v.([]*pki.Cert)
+}
+
 func ders(cs []*pki.Cert) [][]byte {
 	out := make([][]byte, len(cs))
 	for i, c := range cs {
@@ -97,7 +123,8 @@ func c02VerifyBody(c *mc.Ctx, media string, scheme string) {
 		form = c02Forms[c.ChooseFree("declaration-form", len(c02Forms))]
 	}
 	key := pki.K(keyName)
-	chain := chainFor(keyName)
+	shape := c.ChooseFree("chain-shape", len(c02ChainShapes))
+	chain := chainForShape(keyName, shape)
 	cont := baseContent(scheme)
 	table := envenc.TableAlg(key.Kind)
 	absent := ai == len(envenc.Algs)
@@ -266,7 +293,7 @@ func c02RemoteBody(c *mc.Ctx, media string) {
 	st := c02SpecTypes[c.ChooseFree("spec-type", len(c02SpecTypes))]
 	sz := c02SpecSizes[c.ChooseFree("spec-size", len(c02SpecSizes))]
 	key := pki.K(keyName)
-	chain := chainFor(keyName)
+	chain := chainForShape(keyName, c.ChooseFree("chain-shape", len(c02ChainShapes)))
 	spec := signature.KeySpec{Type: st, Size: sz}
 	rs := envenc.NewRemoteSigner(key, pki.X509s(chain))
 	rs.Spec = spec
@@ -484,7 +511,7 @@ func c02Scenarios(tier mc.Tier) []mc.Scenario {
 			out = append(out, mc.Scenario{Name: "C02-local-signer-keys-derived-from-the-leaf-key", Bound: -1, Expect: 8, Body: c02DerivedKeys, Params: map[string]string{"path": "NewLocalSigner", "keys": "RSA same modulus other exponent; ECDSA same coordinates other curve"}})
 		}
 		out = append(out, mc.Scenario{Name: "C02-remote-signer-unstable-keyspec-" + mediaShort(m), Bound: -1, Expect: 4 * 6 * 2, Body: func(c *mc.Ctx) { c02UnstableSpec(c, m) }, Params: map[string]string{"format": m, "path": "remote signer whose KeySpec answer changes after k queries"}})
-		out = append(out, mc.Scenario{Name: "C02-remote-signer-" + mediaShort(m), Bound: -1, Expect: int64(2 * len(c02LeafKeys) * len(c02SpecTypes) * len(c02SpecSizes)), Body: func(c *mc.Ctx) { c02RemoteBody(c, m) }, Params: map[string]string{"format": m, "path": "remote signer"}})
+		out = append(out, mc.Scenario{Name: "C02-remote-signer-" + mediaShort(m), Bound: -1, Expect: int64(2 * len(c02ChainShapes) * len(c02LeafKeys) * len(c02SpecTypes) * len(c02SpecSizes)), Body: func(c *mc.Ctx) { c02RemoteBody(c, m) }, Params: map[string]string{"format": m, "path": "remote signer"}})
 		out = append(out, mc.Scenario{Name: "C02-local-signer-" + mediaShort(m), Bound: -1, Body: func(c *mc.Ctx) { c02LocalBody(c, m) }, Params: map[string]string{"format": m, "path": "local signer"}})
 	}
 	out = append(out, mc.Scenario{Name: "C02-tables", Bound: -1, Expect: 10 * 4 * 10, Body: c02TableBody})
